@@ -243,6 +243,10 @@ func (p *Processor) ChargingDataCreate(
 // validateChargingDataCreate checks the members of an initial request that the CDR is built from
 // unconditionally (TS 32.291: mandatory members of the respective structures).
 func validateChargingDataCreate(chargingData models.ChfConvergedChargingChargingDataRequest) error {
+	// the SUPI names the subscriber's CDR file: an IMSI is 5 to 15 decimal digits (TS 23.003)
+	if supi := chargingData.SubscriberIdentifier; strings.HasPrefix(supi, "imsi-") && !isDigits(supi[5:], 5, 15) {
+		return fmt.Errorf("subscriberIdentifier is not a valid IMSI")
+	}
 	nfId := chargingData.NfConsumerIdentification
 	if nfId == nil {
 		return fmt.Errorf("nfConsumerIdentification is missing")
